@@ -34,6 +34,7 @@ type Solver struct {
 	LastError  string
 	Fallbacks  int
 	feasMs     int
+	noFallback bool
 	curMs      int
 	vars       []*Term
 	log        io.Writer
@@ -203,7 +204,9 @@ func (s *Solver) CheckFeas(extra []*Term, wantModel []*Term) (SatResult, map[str
 	if s.feasMs > 0 && s.feasMs < s.timeoutMs && !strings.Contains(s.bin, "cvc5") {
 		s.send(fmt.Sprintf("(set-option :timeout %d)", s.feasMs))
 		s.curMs = s.feasMs
+		s.noFallback = true
 		r, m := s.Check(extra, wantModel)
+		s.noFallback = false
 		s.send(fmt.Sprintf("(set-option :timeout %d)", s.timeoutMs))
 		s.curMs = s.timeoutMs
 		return r, m
@@ -254,7 +257,7 @@ func (s *Solver) Check(extra []*Term, wantModel []*Term) (SatResult, map[string]
 		fmt.Fprintln(os.Stderr, "SOLVER ERROR:", s.LastError)
 	}
 	var model map[string]string
-	if res == RUnknown && !strings.Contains(s.LastError, "solver died") {
+	if res == RUnknown && !s.noFallback && !strings.Contains(s.LastError, "solver died") {
 		// incremental mode weakens z3's non-linear reasoning: retry the same query one-shot
 		if r2, m2, ok := s.oneShot(mrefs); ok {
 			res = r2
